@@ -85,8 +85,14 @@ def evaluate_expression(expression: str, context: dict[str, Any]) -> Any:
         tree = ast.parse(expr, mode="eval")
     except SyntaxError as e:
         raise ExpressionError(f"Invalid expression syntax: {e}") from e
+    except RecursionError as e:
+        # The parser itself recurses on nesting ("not not not ...", "a.b.b.b...").
+        raise ExpressionError("Expression is nested too deeply") from e
 
-    return _eval_node(tree.body, context)
+    try:
+        return _eval_node(tree.body, context)
+    except RecursionError as e:
+        raise ExpressionError("Expression is nested too deeply") from e
 
 
 def _eval_node(node: ast.AST, context: dict[str, Any]) -> Any:
